@@ -91,6 +91,18 @@ let dispatch name =
     let tol = rq () in let o = robj () in let ds = rnatlist () in let ab = rlist rbool in
     let pts = rlist rqlist in
     plist (fun ts -> pqlist (Exec.q_eval_h tol o ds ab ts)) pts
+  | "basis_insert_knot" ->
+    let b = rbasis () in let x = rq () in
+    pres (fun (b', c) -> pbasis b'; plist pqlist c) (Exec.q_basis_insert_knot b x)
+  | "obj_insert_knots" ->
+    let o = robj () in let d = rnat () in let xs = rqlist () in
+    pres pobj (Exec.q_obj_insert_knots o d xs)
+  | "refine_knots" ->
+    let tol = rq () in let b = rbasis () in let n = rnat () in
+    pqlist (Exec.q_refine_knots tol b n)
+  | "knot_spans" ->
+    let tol = rq () in let b = rbasis () in let g = rbool () in
+    pqlist (Exec.q_knot_spans tol b g)
   | _ -> out ("UNKNOWN " ^ name)
 
 let () =
